@@ -44,6 +44,9 @@ for d in sorted(glob.glob(f"{V}/seeded/*/meta.json")):
     verdict = "; ".join(f"{t}: " + ("**missed**" if v["exit"] == 0 else "caught (" + ", ".join(k.replace('property-fails-on-implementation', 'failing input').replace('correspondence-broken', 'correspondence') for k in v["kinds"]) + ")") for t, v in runs.items()) or "not run yet"
     out.append(f"| {m['seed']} | {m['property']} | {need} | {verdict} |")
 out.append("")
+tail = f"{V}/notes/as_built_tail.md"
+if os.path.exists(tail):
+    out.append(open(tail).read())
 txt = "\n".join(out)
 s = open(f"{V}/DESIGN.md").read()
 B, E = "<!-- AS-BUILT BEGIN -->", "<!-- AS-BUILT END -->"
